@@ -62,6 +62,8 @@ func NewHTTPS2HTTPPlugin(_ PluginContext, options v1.ClientPluginOptions) (Plugi
 			req := r.Out
 			req.URL.Scheme = "http"
 			req.URL.Host = p.opts.LocalAddr
+			// forward the query exactly as received (see pkg/util/vhost/http.go)
+			req.URL.RawQuery = r.In.URL.RawQuery
 			if p.opts.HostHeaderRewrite != "" {
 				req.Host = p.opts.HostHeaderRewrite
 			}
